@@ -500,6 +500,32 @@ func runC16(c *Ctx) {
 			c.Ob("R16.1", shortName(FuncName(op))+"#fn("+n+")", f.Pos(), ok, what, det)
 		}
 	}
+	// ---- R16.13: a registered function that calls back into the state from an uncounted Go loop
+	// (its exit depends on what the callee returns) never passes the VM loop where the deadline is
+	// checked when the callee is itself a Go function: such a function must be removed, too
+	c.Rule("R16.13", "no script-callable Go function loops on a callback without a counted bound, unless its global is removed", 1)
+	nLoop := 0
+	for _, op := range openers {
+		reg := registeredBy(p, op)
+		var names []string
+		for n := range reg {
+			names = append(names, n)
+		}
+		sort.Strings(names)
+		for _, n := range names {
+			f := reg[n]
+			where := uncountedCallbackLoop(f)
+			if where == nil {
+				continue
+			}
+			nLoop++
+			c.Ob("R16.13", shortName(FuncName(op))+"#loop("+n+")", f.Pos(), removed[n], "script-callable `"+n+"` ("+shortName(FuncName(f))+") drives a callback from a Go loop that only the callback's result ends — removed before the script runs",
+				ifs(!removed[n], "`"+n+"` is left in the sandbox: with a reader / callback that is itself a Go function (e.g. math.random) the loop at "+p.Pos(where.Pos())+" never re-enters the interpreter loop, the 1s deadline is never checked, and RunLuaScript does not return — the reconcile worker is blocked for good"))
+		}
+	}
+	if nLoop == 0 {
+		c.Ob("R16.13", "registered#uncounted-callback-loops", run.Pos(), false, "library functions with an uncounted callback loop (base.load)", "anchor not found: the detector no longer recognises base.load")
+	}
 	c.Extra["openers"] = opened
 	c.Extra["registered_functions"] = total
 	c.Extra["exhaustive_registered_functions"] = true
@@ -759,4 +785,55 @@ func runC16(c *Ctx) {
 		}
 		c.Ob("R16.5", FuncName(fn)+"#table-or-error", fn.Pos(), bad == "", "success only for a table result", bad)
 	}
+}
+
+// uncountedCallbackLoop returns a call instruction inside a cycle of f that calls back into the
+// Lua state ((*LState).Call / PCall / CallByParam) when no block of that cycle tests a loop
+// counter or a range iterator — i.e. only what the callee returns can end the loop.
+func uncountedCallbackLoop(f *ssa.Function) ssa.Instruction {
+	if f == nil || f.Blocks == nil {
+		return nil
+	}
+	for _, b := range f.Blocks {
+		for _, in := range b.Instrs {
+			ci, ok := in.(ssa.CallInstruction)
+			if !ok {
+				continue
+			}
+			cn := CalleeName(ci.Common())
+			if !(NameMatch(cn, "gopher-lua.LState.Call") || NameMatch(cn, "gopher-lua.LState.PCall") || NameMatch(cn, "gopher-lua.LState.CallByParam")) {
+				continue
+			}
+			cyc := loopBlocks(b)
+			if !cyc[b] {
+				continue
+			}
+			counted := false
+			for x := range cyc {
+				if len(x.Instrs) == 0 {
+					continue
+				}
+				iff, ok := x.Instrs[len(x.Instrs)-1].(*ssa.If)
+				if !ok {
+					continue
+				}
+				// an exit test that depends on a loop counter (directly, or through what is fetched at
+				// that index) or on a range iterator bounds the loop
+				for v := range BackwardSlice(iff.Cond) {
+					switch y := v.(type) {
+					case *ssa.Phi:
+						if isInductionVar(y) && cyc[y.Block()] {
+							counted = true
+						}
+					case *ssa.Next:
+						counted = true
+					}
+				}
+			}
+			if !counted {
+				return in
+			}
+		}
+	}
+	return nil
 }
